@@ -1,6 +1,7 @@
 /-
   C18 — Grid <-> table conversions preserve every value at its own coordinates.
 -/
+import VerdeModel.Gen.Grid
 import VerdeModel.Lemmas.Grid
 import VerdeModel.Lemmas.Num
 namespace Verde.C18
@@ -157,5 +158,88 @@ example : (makeGrid (.d1 [1, 2, 4]) (.d1 [10, 20]) [] (some [[[0, 1, 2], [3, 4, 
     gridToTable = some [("lat", [10, 10, 10, 20, 20, 20]), ("lon", [1, 2, 4, 1, 2, 4]), ("a", [0, 1, 2, 3, 4, 5])] := by
   decide +kernel
 example : checkMeshgrid [[1, 2, 4], [1, 5/2, 4]] [[10, 10, 10], [20, 20, 20]] = false := by decide +kernel
+
+/-! ### Bridge: `grid_to_table` regenerated from source -/
+
+theorem find_self {β : Type} (l : List (String × β)) (p : String × β) (hp : p ∈ l) (hn : (l.map (·.1)).Nodup) :
+    l.find? (fun q => q.1 == p.1) = some p := by
+  induction l with
+  | nil => cases hp
+  | cons q rest ih =>
+    simp only [List.map_cons, List.nodup_cons] at hn
+    rcases List.mem_cons.mp hp with h | h
+    · subst h; simp
+    · have hne : q.1 ≠ p.1 := by
+        intro he
+        exact hn.1 (he ▸ List.mem_map_of_mem h)
+      simp [List.find?_cons, hne, ih h hn.2]
+
+/-- Looking every name of an association list up in that list gives the list back (distinct names). -/
+theorem zip_lookups (l : List (String × Arr2)) (hn : (l.map (·.1)).Nodup) :
+    (l.map (·.1)).zip ((l.map (·.1)).map fun name => ravel2 (((l.find? fun p => p.1 == name).map (·.2)).getD []))
+      = l.map fun p => (p.1, ravel2 p.2) := by
+  apply List.ext_getElem
+  · simp
+  · intro i h1 h2
+    simp only [List.getElem_zip, List.getElem_map]
+    have hi : i < l.length := by simpa using h2
+    have := find_self l l[i] (List.getElem_mem hi) hn
+    simp [this]
+
+theorem fold_append (ds : Dataset) (extra : List String) (cs : List (List Rat)) (ns : List String) :
+    extra.foldl (fun (st : List (List Rat) × List String) coord => (st.1 ++ [ravel2 (ds.extraOf coord)], st.2 ++ [coord])) (cs, ns)
+      = (cs ++ extra.map fun c => ravel2 (ds.extraOf c), ns ++ extra) := by
+  induction extra generalizing cs ns with
+  | nil => simp
+  | cons c rest ih => simp [List.foldl_cons, ih]
+
+theorem ravel_mesh_east (east north : List Rat) :
+    ravel2 (meshgrid east north).1 = (List.range (north.length * east.length)).map fun k => east.getD (k % east.length) 0 := by
+  apply List.ext_getElem?
+  intro k
+  by_cases hk : k < north.length * east.length
+  · rw [(table_coords_are_raveled_meshgrid east north k hk).1]
+    simp [List.getElem?_map, List.getElem?_range hk]
+  · have hlen : (ravel2 (meshgrid east north).1).length = north.length * east.length := by
+      simp only [ravel2, meshgrid]
+      rw [flatten_uniform_length _ east.length (by intro r hr; simp at hr; obtain ⟨_, _, rfl⟩ := hr; rfl)]
+      simp
+    rw [List.getElem?_eq_none (by omega), List.getElem?_eq_none (by simp; omega)]
+
+theorem ravel_mesh_north (east north : List Rat) :
+    ravel2 (meshgrid east north).2 = (List.range (north.length * east.length)).map fun k => north.getD (k / east.length) 0 := by
+  apply List.ext_getElem?
+  intro k
+  by_cases hk : k < north.length * east.length
+  · rw [(table_coords_are_raveled_meshgrid east north k hk).2]
+    simp [List.getElem?_map, List.getElem?_range hk]
+  · have hlen : (ravel2 (meshgrid east north).2).length = north.length * east.length := by
+      simp only [ravel2, meshgrid]
+      rw [flatten_uniform_length _ east.length (by intro r hr; simp at hr; obtain ⟨_, _, rfl⟩ := hr; simp)]
+      simp
+    rw [List.getElem?_eq_none (by omega), List.getElem?_eq_none (by simp; omega)]
+
+/-- **Bridge.**  `grid_to_table` (Dataset branch) as regenerated STATEMENT BY STATEMENT from /repo's source text on every run — the variable and dimension
+    names, `north`/`east` looked up under `coordinate_names[0]`/`[1]` (indices read from the source), `np.meshgrid(east, north)` raveled and
+    reversed (argument order and the `[::-1]` read from the source), the extra coordinates appended in `coords.keys()` order, and the two
+    `zip`s into the column dictionary — equals the model's table for every Dataset with distinct names: one row per cell in row-major order
+    with that cell's northing, easting, extra coordinates and variables. -/
+theorem gen_grid_to_table_eq_model (ds : Dataset) (keys : List String)
+    (hd : ds.dims.1 ≠ ds.dims.2)
+    (hkeys : keys.filter (fun coord => !([ds.dims.1, ds.dims.2].contains coord)) = ds.extras.map (·.1))
+    (hex : (ds.extras.map (·.1)).Nodup) (hv : (ds.vars.map (·.1)).Nodup) :
+    Gen.gridToTable ds keys = gridToTable ds := by
+  unfold Gen.gridToTable gridToTable
+  simp only [hkeys, fold_append, List.getD_cons_zero, List.getD_cons_succ]
+  have hn : ds.coordOf ds.dims.1 = ds.north := by simp [Dataset.coordOf]
+  have he : ds.coordOf ds.dims.2 = ds.east := by
+    have : (ds.dims.2 == ds.dims.1) = false := by simpa using Ne.symm hd
+    simp [Dataset.coordOf, this]
+  simp only [hn, he, List.map_cons, List.map_nil, List.reverse_cons, List.reverse_nil, List.nil_append, List.cons_append]
+  have hex' := zip_lookups ds.extras hex
+  have hv' := zip_lookups ds.vars hv
+  simp only [Dataset.extraOf, Dataset.varOf, List.zip_cons_cons]
+  rw [hex', hv', ravel_mesh_north, ravel_mesh_east]
+  simp
 
 end Verde.C18
